@@ -38,7 +38,10 @@ func digits(v int64) []int {
 type scenario struct {
 	base, max time.Duration
 	m, j      frac
-	script    string // per dial attempt: f fail, r fail and ResetConnectBackoff a quarter of base later, s succeed
+	// per dial attempt: f fail at once, p fail after a part of the backoff (base/2), l fail after longer than any
+	// backoff (2 x max), t hang until the dial deadline expires, r fail at once and ResetConnectBackoff a quarter
+	// of base later, s succeed
+	script string
 }
 
 func runScenario(t *testing.T, tr *vlib.Trace, sc scenario) {
@@ -92,8 +95,20 @@ func runScenario(t *testing.T, tr *vlib.Trace, sc scenario) {
 					tr.Emit(map[string]any{"ev": "resetbo"})
 					cc.ResetConnectBackoff()
 				}()
+			case 'p':
+				select {
+				case <-time.After(sc.base / 2):
+				case <-ctx.Done():
+				}
+			case 'l':
+				select {
+				case <-time.After(2 * sc.max):
+				case <-ctx.Done():
+				}
+			case 't':
+				<-ctx.Done()
 			}
-			tr.Emit(map[string]any{"ev": "dialfail"})
+			tr.Emit(map[string]any{"ev": "dialfail", "t": digits(int64(time.Since(start)))})
 			return nil, errors.New("scripted dial failure")
 		}
 		var err error
@@ -101,7 +116,7 @@ func runScenario(t *testing.T, tr *vlib.Trace, sc scenario) {
 			grpc.WithContextDialer(dialer),
 			grpc.WithConnectParams(grpc.ConnectParams{
 				Backoff:           backoff.Config{BaseDelay: sc.base, Multiplier: float64(sc.m.p) / float64(sc.m.q), Jitter: float64(sc.j.p) / float64(sc.j.q), MaxDelay: sc.max},
-				MinConnectTimeout: time.Second,
+				MinConnectTimeout: 3 * sc.max, // the dial deadline never cuts a scripted slow dial short
 			}))
 		if err != nil {
 			panic(err)
@@ -138,7 +153,7 @@ func runScenario(t *testing.T, tr *vlib.Trace, sc scenario) {
 		}()
 		select {
 		case <-done:
-		case <-time.After(100 * time.Hour): // virtual
+		case <-time.After(1000 * time.Hour): // virtual
 		}
 		cc.Close()
 		srv.Stop()
@@ -159,6 +174,9 @@ func TestVerifC20Pace(t *testing.T) {
 	sec := time.Second
 	fixed := []scenario{
 		{sec, 120 * sec, frac{8, 5}, frac{1, 5}, "ffffffff"},
+		{sec, 8 * sec, frac{2, 1}, frac{0, 1}, "fplfplsplf"},
+		{sec, 4 * sec, frac{2, 1}, frac{1, 4}, "ltfpsltrpf"},
+		{2 * sec, 6 * sec, frac{3, 2}, frac{1, 2}, "pplltfsrlp"},
 		{sec, 8 * sec, frac{2, 1}, frac{0, 1}, "fffffsffsf"},
 		{sec, 8 * sec, frac{2, 1}, frac{1, 4}, "ffrfffsfrff"},
 		{2 * sec, 5 * sec, frac{3, 2}, frac{1, 2}, "fffffrsfff"},
@@ -172,7 +190,7 @@ func TestVerifC20Pace(t *testing.T) {
 	for i := 0; i < n; i++ {
 		b := make([]byte, 6+r.Intn(8))
 		for k := range b {
-			b[k] = "ffffffsr"[r.Intn(8)]
+			b[k] = "fffpplltsr"[r.Intn(10)]
 		}
 		runScenario(t, tr, scenario{time.Duration(1+r.Intn(4)) * sec / 2, time.Duration(4+r.Intn(20)) * sec, ms[r.Intn(len(ms))], js[r.Intn(len(js))], string(b)})
 	}
